@@ -1694,6 +1694,10 @@ def instantiate_repo_class(ex, cls, args, kwargs, node):
         for f in dataclasses.fields(cls):
             if f.name in vals:
                 continue
+            if not f.init and f.default_factory is dataclasses.MISSING:
+                # the generated __init__ does not assign an init=False field without a default_factory:
+                # a plain default stays a *class* attribute (which a subclass may override)
+                continue
             if f.default is not dataclasses.MISSING:
                 vals[f.name] = ex.import_native(f.default)
             elif f.default_factory is not dataclasses.MISSING:
